@@ -20,10 +20,12 @@ void comp_case(Ctx &c) {
         c.count("enum_cases");
         c.maxc("enum_space_per_configuration", kSmallScope.total());
     }
-    auto sc = Mode == 3 && !c.given ? gen_big_case<K>(c, Eps) : Huge && !c.given ? gen_huge_case<K>(c.rng, Eps) : Mode == 2 && !c.given ? [&] { StaticCase<K> e; gen_enum_case<K>(c, e); return e; }() : make_static_case<K>(c, Eps, chunked, 5000, c.thorough() ? (size_t(1) << 17) : (size_t(1) << 16), EpsRec);
+    auto sc = Mode == 5 && !c.given ? gen_many_segments_case<K>(c) : Mode == 3 && !c.given ? gen_big_case<K>(c, Eps) : Huge && !c.given ? gen_huge_case<K>(c.rng, Eps) : Mode == 2 && !c.given ? [&] { StaticCase<K> e; gen_enum_case<K>(c, e); return e; }() : make_static_case<K>(c, Eps, chunked, 5000, c.thorough() ? (size_t(1) << 17) : (size_t(1) << 16), EpsRec);
     NoExtra ex;
     run_static<K, Idx, Eps>(c, sc, variant_which(c), ex);
 }
+#define VF_COMP_SEGS(K, E, ER, F)                                                                                      \
+    VF_REGISTER(std::string("comp/") + ::vf::KT<K>::name() + ",e" #E ",er" #ER "," #F "#segs", (&::vf::comp_case<K, E, ER, F, 5>), 0.004)
 #define VF_COMP(K, E, ER, F)                                                                                           \
     VF_REGISTER(std::string("comp/") + ::vf::KT<K>::name() + ",e" #E ",er" #ER "," #F, (&::vf::comp_case<K, E, ER, F>), 1.0)
 #define VF_COMP_ENUM(K, E, ER, F)                                                                                      \
